@@ -87,9 +87,13 @@ def gen(seed: int, tier: str) -> dict[str, Any]:
            # connect() again on the same object
            "auth_refused_first": rng.choice([1, 1, 2]) if (not clean) and rng.random() < 0.12 else 0,
            # the gateway hands out the lowest free session id: a reconnect gets the id of the session before (new key)
-           "lowest_free_sid": rng.random() < 0.5}
+           "lowest_free_sid": rng.random() < 0.5,
+           # the TCP connection dies while the first connect() waits for its SessionResponse: the reconnect's connect() runs
+           # while the first one is still pending, and the one SessionResponse that arrives then wakes both
+           "close_in_handshake": rng.choice([0.05, 0.3, 0.9]) if (not clean) and rng.random() < 0.1 else None}
     if cfg["bad_dev_mac"] or cfg["auth_fail"]:
         cfg["auth_refused_first"] = 0
+        cfg["close_in_handshake"] = None
     return {"seed": seed, "tier": "S", "config": cfg, "ops": ops}
 
 
@@ -105,6 +109,8 @@ def run(plan: dict[str, Any]) -> dict[str, Any]:
     rng = random.Random(plan["seed"] ^ 0xC29)
     gw = SecureGateway(net, rng)
     gw.lowest_free_sid = bool(cfg.get("lowest_free_sid"))
+    if cfg.get("close_in_handshake"):
+        gw.session_script = [{"k": "close", "d": cfg["close_in_handshake"]}]
     gw.bad_dev_mac = cfg["bad_dev_mac"]
     if cfg["auth_fail"]:
         gw.auth_result = 1
@@ -243,7 +249,8 @@ def run(plan: dict[str, Any]) -> dict[str, Any]:
         tasks = []
 
         async def do_connect():
-            for attempt in range(1 + cfg.get("auth_refused_first", 0)):
+            # (one more attempt when the very first one dies with its TCP connection during the handshake)
+            for attempt in range(1 + cfg.get("auth_refused_first", 0) + (1 if cfg.get("close_in_handshake") else 0)):
                 try:
                     await tunnel.connect()
                     info["connect"] = "ok"
